@@ -88,9 +88,22 @@ func (am *AppMapper) BuildApplication(a *sysl.Application) *App {
 // TODO Check if colon is valid in typename
 func (am *AppMapper) IndexTypes() map[string]*sysl.Type {
 	var typeIndex = make(map[string]*sysl.Type, 10)
-	for appName, app := range am.Module.Apps {
-		for typeName, typeVal := range app.Types {
-			typeIndex[appName+"."+typeName] = typeVal
+	// in name order: two types can have the same index (type C of application A.B and type B.C of application A
+	// are both A.B.C), and which of them is kept must not depend on map iteration order.
+	appNames := make([]string, 0, len(am.Module.Apps))
+	for appName := range am.Module.Apps {
+		appNames = append(appNames, appName)
+	}
+	sort.Strings(appNames)
+	for _, appName := range appNames {
+		app := am.Module.Apps[appName]
+		typeNames := make([]string, 0, len(app.Types))
+		for typeName := range app.Types {
+			typeNames = append(typeNames, typeName)
+		}
+		sort.Strings(typeNames)
+		for _, typeName := range typeNames {
+			typeIndex[appName+"."+typeName] = app.Types[typeName]
 		}
 	}
 	am.Types = typeIndex
